@@ -3,11 +3,23 @@ from .. import mirvc
 from . import _mir
 
 
+def replay_candidate(v, work, log):
+    from .. import scenarios
+    return scenarios.replay_for("C15", v, work, log)
+
+
 def spec(tier, seed):
+    from ..kani import Instance
+    # the lemma rests on `existed` recording the on-disk state: no patch operation (rename via move_out / move_in) may change it
+    inst = [Instance("c15_rename_b%d" % st, "patch", "rename_case(%d)" % st, unwind=12, unwindset={"memcmp.0": 3}, features=False, mem_gb=4, timeout_s=600,
+                     sub="C15: rename (move_out / move_in / undo) never changes a file's `existed` flag", params=dict(target_state=["absent", "exists empty", "exists non-empty"][st]))
+            for st in (0, 1, 2)]
     return {
-        "instances": [],
+        "instances": inst,
         "mir_vcs": [{"name": "save_modified_file: remove_file precedes File::create for files that existed", "function": "save_modified_file",
-                     "target": "bin", "run": lambda fns, variants, work: _mir.vc_replace_not_edit(fns, variants, work)}],
+                     "target": "bin", "run": lambda fns, variants, work: _mir.vc_replace_not_edit(fns, variants, work)},
+                    {"name": "save_modified_file: nothing touches an existing file before it is unlinked", "function": "save_modified_file",
+                     "target": "bin", "run": lambda fns, variants, work: _mir.vc_first_touch_is_unlink(fns, variants, work)}],
         "level": "other",
         "engine": "mirvc: symbolic execution of the MIR of apply/common.rs::save_modified_file; z3, cross-checked with cvc5",
         "functions": ["common::save_modified_file (MIR)"],
